@@ -18,3 +18,13 @@ Fixpoint sols_value (l : list sol) (y : Q) : Q :=
 (* a tent that does not span zero (OpenType ignores the others) *)
 Definition no_straddle (t : tent) : Prop := let '(l, p, u) := t in 0 <= l \/ u <= 0.
 Fixpoint sum_fst (l : list sol) : Q := match l with [] => 0 | s :: r => fst s + sum_fst r end.
+
+(* ---- _solve's pieces read in OLD coordinates with the plain tent function (before rebaseTent renormalises their corners) *)
+Definition sol_raw (s : sol) (x : Q) : Q := match snd s with None => fst s | Some t => fst s * rawtent t x end.
+Fixpoint sols_raw (l : list sol) (x : Q) : Q := match l with [] => 0 | s :: r => sol_raw s x + sols_raw r x end.
+
+(* the tents the theorem speaks about: a proper OpenType tent (ordered, peak not 0, not spanning 0) that is CONTINUOUS on the new range:
+   a vertical flank (lower == peak or peak == upper) is allowed only at or beyond the end of the range *)
+Definition good (t : tent) (L : lim) : Prop :=
+  let '(l, p, u) := t in
+  l <= p /\ p <= u /\ ~ p == 0 /\ no_straddle t /\ (l < p \/ p <= amin L) /\ (p < u \/ amax L <= p).
